@@ -90,9 +90,16 @@ def get_total_usages(req):
     sum/total of usages.
     Return 404 Not Found if the wanted microversion does not match.
     """
-    project_id = req.GET.get('project_id')
-    user_id = req.GET.get('user_id')
-    consumer_type = req.GET.get('consumer_type')
+    try:
+        project_id = req.GET.get('project_id')
+        user_id = req.GET.get('user_id')
+        consumer_type = req.GET.get('consumer_type')
+    except UnicodeDecodeError:
+        # webob decodes the query string when it is first used. Carry on
+        # without values: the policy check below then has no project to
+        # grant a project reader access to, and validate_query_params()
+        # turns the undecodable query string into a 400.
+        project_id = user_id = consumer_type = None
 
     context = req.environ['placement.context']
     context.can(
